@@ -11,7 +11,7 @@ RULE = (
     "and the declared schema is identical at every stage. non-trivial = non-source value with >= 2 partitions or an empty partition; distinct by (program hash, value id)"
 )
 ASSUMPTIONS = ["user-passed meta is never generated (every declared schema is dask-expr's own)", "approximate / dtype-changing pandas-version quirks are judged by dtype *kind* only"]
-BUDGET_S = {"quick": 170, "thorough": 3000}
+BUDGET_S = {"quick": 170, "thorough": 900}
 
 W = dict(c06.W, **{"merge": 3, "where": 2, "shift": 2, "astype": 1.5, "groupby_agg": 2.5, "reduce": 2, "value_counts": 1.5, "unique": 1, "to_frame": 1.5, "rename": 1.5, "accessor": 1.5, "assign": 2})
 PROFILE_Q = gen.Profile("schema", weights=W, max_steps=5, max_rows=10)
